@@ -159,6 +159,7 @@ func initNatives() {
 			// zero or more calls: check the precondition, havoc what the callback may modify (no
 			// postcondition is assumed: there may have been no call), then check that the
 			// precondition is stable under that havoc (so every later call is also fine)
+			preWalk := st.clone()
 			fv.ccMode = ccHavocOnly
 			fv.applyContract(st, c, clo.Fn.String(), pn, cargs, clo.Fn.Signature, &calleeInfo{fn: clo.Fn, clo: clo}, pos)
 			var cargs2 []Value
@@ -174,6 +175,9 @@ func initNatives() {
 				st.heap["GH_walked"] = args[0].L[1]
 			}
 			res := fv.freshResult(st, "walk", sig)
+			// the callback's result type and the walk's are both error: what accumulates over the
+			// calls holds of the walk
+			fv.assumeAccum(st, preWalk, c, &calleeInfo{fn: clo.Fn, clo: clo}, res)
 			return res
 		},
 	}
